@@ -245,13 +245,31 @@ func (t *Transcoder) addRule(httpRule *annotations.HttpRule, methodConf *methodC
 	if err != nil {
 		return fmt.Errorf("failed to add REST route for method %s: %w", methodPath, err)
 	}
+	if err := checkPathVariableTypes(firstTarget); err != nil {
+		return fmt.Errorf("failed to add REST route for method %s: %w", methodPath, err)
+	}
 	methodConf.httpRule = firstTarget
 	for i, rule := range httpRule.GetAdditionalBindings() {
 		if len(rule.GetAdditionalBindings()) > 0 {
 			return fmt.Errorf("nested additional bindings are not supported (method %s)", methodPath)
 		}
-		if _, err := t.restRoutes.addRoute(methodConf, rule); err != nil {
+		target, err := t.restRoutes.addRoute(methodConf, rule)
+		if err == nil {
+			err = checkPathVariableTypes(target)
+		}
+		if err != nil {
 			return fmt.Errorf("failed to add REST route (add'l binding #%d) for method %s: %w", i+1, methodPath, err)
+		}
+	}
+	return nil
+}
+
+// checkPathVariableTypes rejects path variables that name a map or a message field: no
+// request could ever supply a value for them.
+func checkPathVariableTypes(target *routeTarget) error {
+	for _, variable := range target.vars {
+		if last := variable.fields[len(variable.fields)-1]; last.IsMap() || !isParameterType(last) {
+			return fmt.Errorf("unexpected path variable %q: must be a scalar field, not a map or message", variable.fieldPath)
 		}
 	}
 	return nil
